@@ -62,14 +62,16 @@ KNOWN = {
             "read 0",
         ],
         # a user handler read a Computable while being notified by Observable.__set__ (which stores afterwards)
-        "matches": lambda sc, clause: clause.split(":")[0] in ("stale", "needless") and _has_progs(sc),
+        # identified by its history: a stale / needless evaluation AFTER some handler read a Computable while notified
+        "matches": lambda sc, clause: clause.split(":")[0] in ("stale-after-handler-read", "needless-after-handler-read"),
     },
     "G10": {
         "scenario": [
             "scenario comp 0.0.obs,0.1.obs,0.2.comp -",
             "define 0 0 2 ( read 0 0 ( write 0 1 1 ( write 0 0 1 ( ret 0 ) ) ) ( ret 1 ) )",
         ],
-        "matches": lambda sc, clause: clause.split(":")[0] == "cycle-not-rejected",
+        # identified by its history: the function assigned another Observable between reading x and assigning x
+        "matches": lambda sc, clause: clause.split(":")[0] == "cycle-not-rejected-after-write",
     },
 }
 
